@@ -326,6 +326,20 @@ func (fe *FnEnc) binopTerm(op token.Token, a, b Val, ta, tb, tr types.Type, pos 
 			fe.noOverflow("(* "+at+" "+bt+")", w, signed, pos)
 			return "(* " + at + " " + bt + ")"
 		}
+		if fe.top.ct != nil && fe.top.ct.Opts["mul"] == "opaque" && !signed && w == 64 {
+			if _, ca := isConstTerm(at); !ca {
+				if _, cb := isConstTerm(bt); !cb {
+					// opt mul=opaque: a product of two symbolic uint64 values is mul64(a, b), the prelude's
+					// uninterpreted function (definition and range are its [manual] axioms; the range is asserted
+					// here): contracts that state the same products need no nonlinear reasoning
+					s.declFun("u_mul64", []string{"Int", "Int"}, "Int")
+					s.usedSpec["mul64"] = true
+					t := "(u_mul64 " + at + " " + bt + ")"
+					s.assert("(and (<= 0 " + t + ") (< " + t + " " + pow2s(64) + "))")
+					return t
+				}
+			}
+		}
 		return s.wrap("(* "+at+" "+bt+")", w, signed)
 	case token.QUO:
 		fe.panicCheck("div0", "(not (= "+bt+" 0))", pos)
